@@ -152,6 +152,17 @@ Example C13_reader_progress_nonvacuous :
   = Ok [(64, 9, None); (64, 2, None); (64, 0, None); (64, 0, Some REOF)]%nat.
 Proof. vm_compute. reflexivity. Qed.
 
+(* The bound is tight, and the hypothesis of the last clause necessary: the reader does return
+   (0, nil) on every empty output record (so did the code before this round), hence a responder
+   that sends 100 empty stdout records in a row — which no conforming responder does, an empty
+   record closes the stream — exhausts the budget. *)
+Theorem C13_reader_progress_tight :
+  exists recs sizes t,
+    Forall valid_rec recs /\ length (filter empty_out recs) = BUFIO_EMPTY_READS /\
+    sr_reads (sr_init (wire_of recs ++ enc_rec end_rec)) sizes = Ok t /\ bufio_ok t = false.
+Proof. exact reader_progress_tight. Qed.
+Print Assumptions C13_reader_progress_tight.
+
 (* [sr_reads] is the call-by-call view of the very reads [sr_read_all] accumulates *)
 Theorem C13_reads_are_the_reads :
   forall sizes s acc,
